@@ -177,3 +177,117 @@ def dispatch(pattern, name, s, *a, **k):
     if core.wrapb(f):
         return SymMatch()
     return None
+
+
+# ---------------------------------------------------------------------------------------------------------------------
+# counting semantics: in how many distinct ways can the backtracking matcher consume a string?  (used for the
+# "no exponential backtracking" clause of C19: a repeat whose body* can consume some w in >= 2 ways lets w^k be consumed
+# in 2^k ways, all of which re.Pattern.match tries before it reports a failure.)
+
+def _ite(pred, a):
+    pred = core.f_of(pred)
+    if pred is True:
+        return a
+    if pred is False:
+        return 0
+    if isinstance(a, int) and a == 0:
+        return 0
+    return core.z3.If(pred, a, 0)
+
+
+def _add(d, pos, v):
+    if isinstance(v, int) and v == 0:
+        return
+    old = d.get(pos)
+    d[pos] = v if old is None else old + v
+
+
+def _count(nodes, start, cps, flags):
+    """start: {position: number of ways to be here}; returns the same after `nodes` (ways = distinct matcher paths)"""
+    n = len(cps)
+    cur = start
+    for op, av in nodes:
+        nxt = {}
+        if op in (sre_c.LITERAL, sre_c.NOT_LITERAL, sre_c.IN, sre_c.ANY, sre_c.RANGE, sre_c.CATEGORY):
+            for pos, v in cur.items():
+                if pos < n:
+                    _add(nxt, pos + 1, _ite(_char_pred(cps[pos], (op, av), flags), v))
+        elif op is sre_c.AT:
+            if av in (sre_c.AT_BEGINNING, sre_c.AT_BEGINNING_STRING):
+                if 0 in cur:
+                    nxt[0] = cur[0]
+            elif av in (sre_c.AT_END, sre_c.AT_END_STRING):
+                if n in cur:
+                    nxt[n] = cur[n]
+            else:
+                raise Unsupported("regex anchor %s" % av)
+        elif op in (sre_c.MAX_REPEAT, sre_c.MIN_REPEAT):
+            lo, hi, sub = av
+            acc = {}
+            step = cur
+            k = 0
+            while True:
+                if k >= lo:
+                    for pos, v in step.items():
+                        _add(acc, pos, v)
+                if (hi is not sre_c.MAXREPEAT and k >= hi) or k > n or not step:
+                    break
+                new = {}
+                for pos, v in step.items():
+                    # an iteration must consume at least one character (the engine refuses empty iterations)
+                    for q, w in _count(sub, {pos: v}, cps, flags).items():
+                        if q > pos:
+                            _add(new, q, w)
+                step = new
+                k += 1
+            nxt = acc
+        elif op is sre_c.SUBPATTERN:
+            nxt = _count(av[3], cur, cps, flags | (av[1] or 0))
+        elif op is sre_c.BRANCH:
+            for alt in av[1]:
+                for pos, v in _count(alt, cur, cps, flags).items():
+                    _add(nxt, pos, v)
+        elif op in (sre_c.ASSERT_NOT, sre_c.ASSERT):
+            direction, sub = av
+            if direction != 1:
+                raise Unsupported("regex look-behind")
+            for pos, v in cur.items():
+                inner = Or(list(_run(sub, {pos: True}, cps, flags).values()))
+                _add(nxt, pos, _ite(Not(inner) if op is sre_c.ASSERT_NOT else inner, v))
+        else:
+            raise Unsupported("regex construct %s" % (op,))
+        cur = nxt
+        if not cur:
+            return {}
+    return cur
+
+
+def unbounded_repeats(pattern):
+    """every repeat node with no upper bound, in document order: [(path, body nodes)]"""
+    tree = sre_parse.parse(pattern.pattern, pattern.flags)
+    out = []
+
+    def walk(nodes):
+        for op, av in nodes:
+            if op in (sre_c.MAX_REPEAT, sre_c.MIN_REPEAT):
+                lo, hi, sub = av
+                if hi is sre_c.MAXREPEAT:
+                    out.append(list(sub))
+                walk(sub)
+            elif op is sre_c.SUBPATTERN:
+                walk(av[3])
+            elif op is sre_c.BRANCH:
+                for alt in av[1]:
+                    walk(alt)
+            elif op in (sre_c.ASSERT, sre_c.ASSERT_NOT):
+                walk(av[1])
+
+    walk(list(tree))
+    return out
+
+
+def ways_star(body, s, flags=0):
+    """number of distinct ways `(?:body)*` consumes the whole of s (a SymStr or str) - int or z3 Int term"""
+    cps = core._cps(s)
+    star = [(sre_c.MAX_REPEAT, (0, sre_c.MAXREPEAT, body))]
+    return _count(star, {0: 1}, cps, flags).get(len(cps), 0)
